@@ -629,7 +629,9 @@ func settle(c *core.Case, rd *reader, n int, base map[string]stall.Parked, when 
 // bytes cannot be delivered any more: its Write (or, failing that, the calls
 // that follow) has to say so.
 func twoWriters(c *core.Case, rs *rawSendCase, rp *rawPeer, conn *ibb.Conn, sid string, base map[string]stall.Parked) {
-	a, b := payload(rs.PayloadSeed, 0, 4), payload(rs.PayloadSeed, 1, 5)
+	// (B's bytes fit the write buffer: a Write that does not notice the close
+	// just buffers them and returns)
+	a, b := payload(rs.PayloadSeed, 0, 4), payload(rs.PayloadSeed, 1, 2)
 	ares := make(chan error, 1)
 	go func() {
 		var err error
@@ -780,6 +782,17 @@ func genRawSend(r *rand.Rand, tier string, idx int) *rawSendCase {
 	rs := &rawSendCase{Kind: "raw-send", PayloadSeed: r.Int63()}
 	if (idx/10)%5 == 0 {
 		rs.Carrier, rs.Block, rs.TwoWriters, rs.BFlushes = "iq", 4, true, r.Intn(3) == 0
+		return rs
+	}
+	if (idx/10)%5 == 1 {
+		// a data IQ answered with type='error' in one of several shapes
+		rs.Carrier, rs.Block = "iq", []int{3, 4, 64}[r.Intn(3)]
+		rs.RefuseAt, rs.RefuseShape = 1+r.Intn(2), errorShapes[(idx/50)%len(errorShapes)]
+		rs.Dir = dirSpec{Len: 12 * rs.Block, LenClass: "block", Part: "flush-each"}
+		for i := 0; i < 12; i++ {
+			rs.Dir.Steps = append(rs.Dir.Steps, wstep{N: rs.Block, Flush: true})
+		}
+		rs.Dir.NSteps, rs.Dir.StepsHead = len(rs.Dir.Steps), rs.Dir.Steps
 		return rs
 	}
 	rs.Block = blockSizes[r.Intn(len(blockSizes))]
